@@ -16,7 +16,7 @@ pub fn def() -> PropDef {
         nontrivial,
         rule: "1-4 clients submitting through all handle kinds while 1-3 stop requests (Addr::stop, halt, WeakAddr::try_stop/try_halt, Context::stop, OwningAddr::consume/consume_sync) are issued from any client at random positions; awaiters (address clones, halt, join) created before and after termination; stopped() suspends 0-2 times; a fraction of runs fail instead (started error, timeout failure, panic); x seeded schedules; non-trivial = a submission from another client was in flight or issued between the first stop request and the end of the actor; distinct = distinct order of client-op and callback events",
         needed_probes: &["c04_awaiter_checked", "c04_after_stop_checked", "c04_before_stop_checked", "c04_late_clone_awaited", "c04_failed_termination_awaited"],
-        quick_runs: 100_000,
+        quick_runs: 200_000,
         thorough_runs: 2_000_000,
         block: 1,
         flavours: &["tokio"],
